@@ -35,6 +35,12 @@ MISSED = {
     "C18-c": "every caller of a shared lookup ran to completion: in 40 % of the de-duplication cases a second identical caller now joins and drops its lookup in flight, and a third one starting afterwards must still share the first exchange",
     "C19-c": "resolutions were strictly sequential: every third query is now resolved twice concurrently on the same recursor and both results are judged",
     "C20-d": "escaped dots were generated in the middle of a label only: labels now also begin or end with one (a relative name written `j\\.` ends in a dot character without being absolute)",
+    # round 3 (letters e, f)
+    "C12-e": "prerequisite sections had at most three independently generated RRs: one later message in five now carries value-dependent prerequisites for every RR of one or two RRsets the zone holds at that moment, in sequence, alternating, nested or reversed (all true by construction)",
+    "C12-f": "every generated type had a code below 256: a private-use type (65280) joined the universe",
+    "C14-e": "no case wrote more than a few dozen rows at once: 1 initial dump in 31 now has more than 1000 records",
+    "C14-f": "every owner name of the initial zone lay inside the zone: a quarter of the initial zones now hold out-of-zone glue, as the zone-file loader accepts",
+    "C19-e": "aliases came as chains and loops only: 1 simulated internet in 13 now has an alias tree (2-3 CNAME records per owner, 4-5 levels) and the number of its names looked up per client query is held against the recursor's cap of 64",
 }
 
 
@@ -95,14 +101,16 @@ for d in sorted(glob.glob(ROOT + "/*/")):
 names = [os.path.basename(d[:-1]) for d in sorted(glob.glob(ROOT + "/*/")) if os.path.exists(d + "meta.json")]
 r1 = [n for n in names if n[-1] in "ab"]
 r2 = [n for n in names if n[-1] in "cd"]
+r3 = [n for n in names if n[-1] in "ef"]
 summary = (
-    "Totals: %d seeded changes (round 1: %d, letters a/b; round 2: %d, letters c/d). Missed by the check as it stood "
-    "when the seed arrived: %d in round 1 (%s), %d in round 2 (%s); every one of them led to a stronger generator, a "
-    "tighter oracle or a narrower known-finding signature, and all %d are caught now.\n\n"
-    % (len(names), len(r1), len(r2),
+    "Totals: %d seeded changes (round 1: %d, letters a/b; round 2: %d, letters c/d; round 3: %d, letters e/f). Missed by the "
+    "check as it stood when the seed arrived: %d in round 1 (%s), %d in round 2 (%s), %d in round 3 (%s); every one of them led "
+    "to a stronger generator, a tighter oracle or a narrower known-finding signature; %s of the %d are caught by the checks as committed (last column).\n\n"
+    % (len(names), len(r1), len(r2), len(r3),
        len([n for n in r1 if n in MISSED]), ", ".join(n for n in r1 if n in MISSED),
        len([n for n in r2 if n in MISSED]), ", ".join(n for n in r2 if n in MISSED) or "none",
-       len(names))
+       len([n for n in r3 if n in MISSED]), ", ".join(n for n in r3 if n in MISSED) or "none",
+       ("all" if not any("NOT DETECTED" in r for r in rows) else str(sum(1 for r in rows if "NOT DETECTED" not in r))), len(names))
 )
 table = summary + "| seed | what it needs to manifest (seeding agent's words, shortened) | caught by |\n|---|---|---|\n" + "\n".join(rows)
 open(ROOT + "/INDEX.md", "w").write("# Independently seeded changes\n\n" + table + "\n")
